@@ -11,10 +11,11 @@ D(rcv, gbo, gb, gw, gi, ri, lbl) ==
 L(n, v) == [n |-> n, v |-> v]
 
 DecosNone  == {NoDeco}
-DecosSmall == { NoDeco,
+DecosFour  == { NoDeco,
                 D(<<"r1">>, "list", <<"a">>, <<10>>, << >>, << >>, << >>),
                 D(<< >>, "all", << >>, << >>, << >>, <<3600>>, <<L("team", "y")>>),
-                D(<<"r2">>, "list", << >>, <<0>>, <<60>>, << >>, <<L("team", "z"), L("sev", "1")>>),
+                D(<<"r2">>, "list", << >>, <<0>>, <<60>>, << >>, <<L("team", "z"), L("sev", "1")>>) }
+DecosSmall == DecosFour \cup {
                 D(<< >>, "inherit", << >>, << >>, <<120>>, <<600>>, <<L("sev", "2")>>),
                 D(<<"r1">>, "list", <<"b", "c">>, << >>, << >>, << >>, << >>) }
 DecosAll   == [ rcv : {<< >>, <<"r1">>, <<"r2">>},
